@@ -148,6 +148,8 @@ where
         #[cfg(feature = "verif")]
         crate::verif::emit(serde_json::json!({"ev":"file_begin","path":file.to_string_lossy()}));
         self.working_dir = file.parent().unwrap().to_path_buf();
+        // One output per evaluation of a file, not per process.
+        self.environment.borrow_mut().reset_out_lock_for_path(&file);
         let ptr = self.environment.borrow_mut().get_ops_for_path(&file)?;
         let eval_result = self.eval_ops(ptr, Some(file.clone()));
         match eval_result {
